@@ -2,6 +2,7 @@
    menpo/model/linear.py and menpo/model/vectorizable.py of the current working tree on every run of `./check C10`;
    do not edit.  GenProps/C10Src.lean proves every definition equal to the Core definition the C10 theorems are about. -/
 import MenpoModel.Core.C10Src
+import MenpoModel.Core.PyLoop
 
 set_option linter.unusedVariables false
 
@@ -49,7 +50,7 @@ def genTotalEigenvaluesCumulativeRatio (s : St) : List Rat :=
 
 def genNoiseVariance (s : St) : Rat :=
   if (((genNActiveComponents s) == (genNComponents s))) then
-    if (((PyVal.int (List.length (s).trimmed : Nat)) != (0))) then
+    if (((PyVal.int (List.length (s).trimmed : Nat)) != ((0 : PyVal)))) then
       let noisevariance0 := (lmean (s).trimmed)
       noisevariance0
     else
@@ -76,15 +77,15 @@ def genSetActive (fl : Fl) (s : St) (value : PyVal) : Except Err St :=
   let errstr0 := ()
   if (PyVal.isFloat value) then
     if (decide ((0 : Rat) < value) && decide (value ≤ (Fl.tvr fl s))) then
-      let value0 := (PyVal.pmin ((PyVal.npSumBools (List.map (fun it0 => let r0 := it0; (decide (r0 < value))) (List.map PyVal.float (Fl.cum fl s)))) + (1)) (genNComponents s))
+      let value0 := (PyVal.pmin ((PyVal.npSumBools (List.map (fun it0 => let r0 := it0; (decide (r0 < value))) (List.map PyVal.float (Fl.cum fl s)))) + ((1 : PyVal))) (genNComponents s))
       if (PyVal.isInt value0) then
-        if (decide (value0 < (1))) then
+        if (decide (value0 < ((1 : PyVal)))) then
           .error .value
         else
           if (decide (value0 ≥ (genNComponents s))) then
             if (decide ((genNActiveComponents s) < (genNComponents s))) then
               let value1 := (genNComponents s)
-              if (decide ((0) < value1) && decide (value1 ≤ (genNComponents s))) then
+              if (decide (((0 : PyVal)) < value1) && decide (value1 ≤ (genNComponents s))) then
                 let self0 := { s with nActive := PyVal.toNat (PyVal.int (PyVal.toInt value1)) }
                 .ok self0
               else
@@ -92,13 +93,13 @@ def genSetActive (fl : Fl) (s : St) (value : PyVal) : Except Err St :=
             else
               .ok s
           else
-            if (decide ((0) < value0) && decide (value0 ≤ (genNComponents s))) then
+            if (decide (((0 : PyVal)) < value0) && decide (value0 ≤ (genNComponents s))) then
               let self0 := { s with nActive := PyVal.toNat (PyVal.int (PyVal.toInt value0)) }
               .ok self0
             else
               .error .value
       else
-        if (decide ((0) < value0) && decide (value0 ≤ (genNComponents s))) then
+        if (decide (((0 : PyVal)) < value0) && decide (value0 ≤ (genNComponents s))) then
           let self0 := { s with nActive := PyVal.toNat (PyVal.int (PyVal.toInt value0)) }
           .ok self0
         else
@@ -107,13 +108,13 @@ def genSetActive (fl : Fl) (s : St) (value : PyVal) : Except Err St :=
       .error .value
   else
     if (PyVal.isInt value) then
-      if (decide (value < (1))) then
+      if (decide (value < ((1 : PyVal)))) then
         .error .value
       else
         if (decide (value ≥ (genNComponents s))) then
           if (decide ((genNActiveComponents s) < (genNComponents s))) then
             let value0 := (genNComponents s)
-            if (decide ((0) < value0) && decide (value0 ≤ (genNComponents s))) then
+            if (decide (((0 : PyVal)) < value0) && decide (value0 ≤ (genNComponents s))) then
               let self0 := { s with nActive := PyVal.toNat (PyVal.int (PyVal.toInt value0)) }
               .ok self0
             else
@@ -121,13 +122,13 @@ def genSetActive (fl : Fl) (s : St) (value : PyVal) : Except Err St :=
           else
             .ok s
         else
-          if (decide ((0) < value) && decide (value ≤ (genNComponents s))) then
+          if (decide (((0 : PyVal)) < value) && decide (value ≤ (genNComponents s))) then
             let self0 := { s with nActive := PyVal.toNat (PyVal.int (PyVal.toInt value)) }
             .ok self0
           else
             .error .value
     else
-      if (decide ((0) < value) && decide (value ≤ (genNComponents s))) then
+      if (decide (((0 : PyVal)) < value) && decide (value ≤ (genNComponents s))) then
         let self0 := { s with nActive := PyVal.toNat (PyVal.int (PyVal.toInt value)) }
         .ok self0
       else
